@@ -26,9 +26,14 @@ Definition is_lazy (m : pmode) : bool := match m with Lazy => true | _ => false 
 (** pre_eval.rs:72-75: the purity a node must have to be evaluated at compile time *)
 Definition mode_min (m : pmode) : purity := if is_lsp m then Impure else Pure.
 
-Inductive backend := BSafe | BNative.
-(** pre_eval.rs:167-176 (feature native_sys on) *)
-Definition comptime_backend (m : pmode) : backend := if is_lsp m then BNative else BSafe.
+(** the backend of the scratch runtime that evaluates a section at compile time:
+    a fresh SafeSys, the process-wide native backend, or the backend the compiler was given *)
+Inductive backend := BSafe | BNative | BOwn.
+(** pre_eval.rs:167-172 as it stands (fix 2bf92f0): editor mode runs system functions on the
+    compiler's own backend, every other mode on a fresh safe backend *)
+Definition comptime_backend (m : pmode) : backend := if is_lsp m then BOwn else BSafe.
+(** RECORD: the choice before 2bf92f0 (feature native_sys on): Uiua::with_native_sys() in editor mode *)
+Definition comptime_backend_pre (m : pmode) : backend := if is_lsp m then BNative else BSafe.
 
 (** BindingKind as far as the gate looks at it (assembly.rs:709) *)
 Inductive bkind := BConst (has_value : bool) | BFunc (f : nat) | BOther.
@@ -536,3 +541,20 @@ Fixpoint failing_states (i : N) (l : list (cstate * cword * cstate)) : list N :=
     else i :: failing_states (i + 1)%N t end.
 Fixpoint nest_macro (n : nat) (w : cword) : cword :=
   match n with O => w | S k => WCodeMacro true (nest_macro k w) end.
+
+(** * The pre-evaluation cache (pre_eval.rs:154-197): thread-local, keyed on the evaluated node ONLY -
+    neither the backend nor the assembly is part of the key.  A hit answers without evaluating. *)
+Section PreCache.
+  Variable key : Type.
+  Variable keyb : key -> key -> bool.
+  Variable val : Type.
+  (** evaluating a section on backend number [b]: its values and the calls it makes on that backend *)
+  Variable eval : nat -> key -> val * list event.
+  Fixpoint clookup (k : key) (c : list (key * val)) : option val :=
+    match c with [] => None | (k', v) :: t => if keyb k k' then Some v else clookup k t end.
+  (** one comptime_node call by a compiler whose backend is [b]: value, calls made on [b], new cache *)
+  Definition comptime_cached (c : list (key * val)) (b : nat) (k : key) : val * list event * list (key * val) :=
+    match clookup k c with
+    | Some v => (v, [], c)
+    | None => let (v, t) := eval b k in (v, t, (k, v) :: c) end.
+End PreCache.
